@@ -524,6 +524,20 @@ def ownReq (st : St) (args : List String) : St × String :=
         | none => (st, "refused")
         | some o2 => ({ st with own := o2 }, s!"rel={showKeys (sortNat o2.released)}")
     | _, _, _, _ => (st, "bad-op")
+  | ["own.walk", _kind, a, _nth, g, x], _ => match n a, n g, n x with
+    -- a traversal whose closure takes member `x` out of container `g`, isolates it and drops the handle: the
+    -- traversal itself owns nothing once it has returned, so the history is get; remove; isolate; drop
+    | some a, some g, some x =>
+      let sel : S → Nat → List (Nat × Nat) := if st.directed then outAdj else unAdj
+      if (st.own.slot a).length != 1 || !st.own.noDangling then (st, "refused") else
+      if !((st.own.slot g).contains x) then (st, s!"rel={showKeys (sortNat st.own.released)}") else
+      let tmp := 9999
+      let r := [OwnOp.get g x tmp, .remove g x, .storeOp tmp tmp .isolate, .drop tmp].foldl
+        (fun (o : Option (OwnSt Nat Nat)) op => o.bind fun o => o.step sel (ownMut st.directed) op) (some st.own)
+      match r with
+      | none => (st, "refused")
+      | some o => ({ st with own := o }, s!"rel={showKeys (sortNat o.released)}")
+    | _, _, _ => (st, "bad-op")
   | ["own.take", g, k, d], _ => match n g, n k, n d with
     -- `Graph::remove` hands back the node: the handle moves from the container to slot `d` (get, then remove)
     | some g, some k, some d =>
